@@ -28,6 +28,9 @@ def scenarios(rng, tier):
                 for qp in ((55, 12) if fixed else (50,)):
                     out.append(dict(base, **{'f:enc_mode': 8, 'f:rate_control_mode': rc, 'f:min_qp_allowed': lo, 'f:max_qp_allowed': hi, 'f:qp': qp,
                                              'f:use_fixed_qindex_offsets': fixed, 'f:target_bit_rate': 200000, 'f:hierarchical_levels': 3}))
+    # second pass of a two-pass VBR encode (the recode loop runs only there) with a QP range rate control wants to leave
+    for (lo, hi, tbr) in ((4, 20, 100000), (30, 40, 3000000)) + (((10, 25, 50000),) if tier == 'thorough' else ()):
+        out.append(dict(base, n=60, content=1, twopass=1, **{'f:enc_mode': 8, 'f:rate_control_mode': 1, 'f:min_qp_allowed': lo, 'f:max_qp_allowed': hi, 'f:target_bit_rate': tbr}))
     for qp in (20, 50, 63, 1):
         out.append(dict(base, n=10, **{'f:enc_mode': 8, 'f:qp': qp, 'f:use_fixed_qindex_offsets': 1}))     # fixed QP, no scaling: exact index
         out.append(dict(base, n=10, **{'f:enc_mode': 8, 'f:qp': qp}))
